@@ -136,7 +136,11 @@ impl<'de> Deserialize<'de> for JoinRule {
     where
         D: Deserializer<'de>,
     {
-        let json: Box<RawJsonValue> = Box::deserialize(deserializer)?;
+        // Deserialize to a `JsonValue` first because a `RawJsonValue` cannot be deserialized when
+        // this type is flattened in another one, like in `RedactedRoomJoinRulesEventContent`.
+        let json = JsonValue::deserialize(deserializer)?;
+        let json: Box<RawJsonValue> =
+            serde_json::value::to_raw_value(&json).map_err(Error::custom)?;
 
         #[derive(Deserialize)]
         struct ExtractType<'a> {
